@@ -1,4 +1,4 @@
-import PV.C08.Lemmas
+import PV.C08.Fold
 /-
   PV.C08.Thm — "layout never changes the tree", the part that lives in the lexer.
 
@@ -72,24 +72,32 @@ theorem lexCore_regular_thm {cfg : Cfg} (hs : cfg.up.Sane) (start : Nat) (src : 
     (lexCore cfg (src.length + 1) start src).fin ≠ .outOfFuel ∧
     (lexCore cfg (src.length + 1) start src).reachedB ≤ start + utf8Len src := lexCore_regular hs start src
 
+/-- the line-end rule, unconditional and global: the run on a text and the run on its universal-newline normal
+    form (`foldEol`: CRLF and lone CR read as LF) emit the same tokens and end the same way — in every lexer
+    state, so also inside strings, comments, after a backslash, inside brackets.  Proved by walking every
+    function of the model (`PV/C08/Fold.lean`). -/
+theorem rule_eol_thm {cfg : Cfg} (hup : UpOk cfg.up) (hf : cfg.fullLexer = false) (st : LexState) (x : List Nat)
+    (ts : List Tok) (e : EndK) : RunsTo cfg st x ts e ↔ RunsTo cfg st (foldEol x) ts e :=
+  eolInv hup hf st x ts e
+
 /-- layout-equivalent texts have the same lexer runs (fuel-free reading), rule by rule and closed under
-    composition.  `heol` is the CR/CRLF folding invariance of the run (`EolInv`). -/
-theorem lex_layout_invariant_runs {cfg : Cfg} (hup : UpOk cfg.up) (hf : cfg.fullLexer = false) (heol : EolInv cfg)
+    composition -/
+theorem lex_layout_invariant_runs {cfg : Cfg} (hup : UpOk cfg.up) (hf : cfg.fullLexer = false)
     {a b : List Nat} (h : LayoutEq cfg a b) : ∀ ts e, LexRun cfg a ts e ↔ LexRun cfg b ts e := by
   induction h with
   | refl => intro ts e; rfl
-  | step h => exact layoutStep_run hup hf heol h
+  | step h => exact layoutStep_run hup hf (eolInv hup hf) h
   | symm _ ih => intro ts e; exact (ih ts e).symm
   | trans _ _ ih1 ih2 => intro ts e; exact (ih1 ts e).trans (ih2 ts e)
 
 /-- **Layout never changes the token stream.**  For texts whose end offset fits `u32` (the Rust `TextSize`),
     in every mode and from every start offset: layout-equivalent texts lex (including the soft-keyword pass) to
     the same tokens and the same kind of end, ranges erased. -/
-theorem lex_layout_invariant {cfg : Cfg} (hup : UpOk cfg.up) (hf : cfg.fullLexer = false) (heol : EolInv cfg)
+theorem lex_layout_invariant {cfg : Cfg} (hup : UpOk cfg.up) (hf : cfg.fullLexer = false)
     {a b : List Nat} (h : LayoutEq cfg a b) (mode : Mode) (start : Nat)
     (ha : start + utf8Len a ≤ u32Max) (hb : start + utf8Len b ≤ u32Max) :
     eraseRanges (lex cfg mode start a) = eraseRanges (lex cfg mode start b) :=
-  lex_eq_of_runs hup.sane (lex_layout_invariant_runs hup hf heol h) mode start ha hb
+  lex_eq_of_runs hup.sane (lex_layout_invariant_runs hup hf h) mode start ha hb
 
 /-! ## the hypotheses are satisfiable, the relation is not trivial -/
 
@@ -149,6 +157,12 @@ example : LayoutEq asciiCfg [102, 40, 97, 41] [102, 40, 10, 97, 41] := by
 /-- line ends and BOM: `a⏎b` ~ `a␍⏎b` ~ `a␍b` ~ BOM `a␍b` -/
 example : LayoutEq asciiCfg [97, 10, 98] [0xFEFF, 97, 13, 98] :=
   .trans (.step (.eol (a := [97, 10, 98]) (b := [97, 13, 98]) (by decide))) (.step (.bom (by decide)))
+
+/-- an instance of the theorem on concrete texts: `x = 'a⏎b'⏎` with LF and with CR / CRLF (line ends inside a
+    string and at the end of the logical line) -/
+example : eraseRanges (lex asciiCfg .module 0 [120, 61, 39, 39, 39, 97, 10, 98, 39, 39, 39, 10]) =
+    eraseRanges (lex asciiCfg .module 0 [120, 61, 39, 39, 39, 97, 13, 98, 39, 39, 39, 13, 10]) :=
+  lex_layout_invariant asciiUp_ok rfl (.step (.eol (by decide))) .module 0 (by decide) (by decide)
 
 /-- the relation does not relate everything: texts with different tokens are not layout-equivalent (so the
     theorem is not vacuous in the other direction either) — an instance of the theorem -/
